@@ -119,3 +119,73 @@ func (m *Map[K, V]) ForEach(f func(K, V) bool) {
 	}
 	emit(Event{Op: "foreach-end"})
 }
+
+// The rest of the real map's API (each method one atomic step), so that a
+// change of the cache that starts using it can still be explored.
+
+func (m *Map[K, V]) GetOrSet(k K, v V) (V, bool) {
+	mc.Yield()
+	if old, ok := m.m[k]; ok {
+		emit(Event{Op: "get", Key: k, Val: old, Ok: true})
+		return old, true
+	}
+	m.keys = append(m.keys, k)
+	m.m[k] = v
+	emit(Event{Op: "set", Key: k, Val: v})
+	return v, false
+}
+
+func (m *Map[K, V]) GetOrCompute(k K, fn func() V) (V, bool) {
+	mc.Yield()
+	if old, ok := m.m[k]; ok {
+		emit(Event{Op: "get", Key: k, Val: old, Ok: true})
+		return old, true
+	}
+	v := fn()
+	m.keys = append(m.keys, k)
+	m.m[k] = v
+	emit(Event{Op: "set", Key: k, Val: v})
+	return v, false
+}
+
+func (m *Map[K, V]) GetAndDel(k K) (V, bool) {
+	mc.Yield()
+	v, ok := m.m[k]
+	emit(Event{Op: "get", Key: k, Val: v, Ok: ok})
+	if ok {
+		delete(m.m, k)
+		for i, x := range m.keys {
+			if x == k {
+				m.keys = append(m.keys[:i], m.keys[i+1:]...)
+				break
+			}
+		}
+		emit(Event{Op: "del", Keys: []any{k}})
+	}
+	return v, ok
+}
+
+func (m *Map[K, V]) Swap(k K, v V) (V, bool) {
+	mc.Yield()
+	old, ok := m.m[k]
+	if ok {
+		m.m[k] = v
+		emit(Event{Op: "set", Key: k, Val: v})
+	}
+	return old, ok
+}
+
+func (m *Map[K, V]) CompareAndSwap(k K, old, new V) bool {
+	mc.Yield()
+	cur, ok := m.m[k]
+	if ok && any(cur) == any(old) {
+		m.m[k] = new
+		emit(Event{Op: "set", Key: k, Val: new})
+		return true
+	}
+	return false
+}
+
+func (m *Map[K, V]) Grow(uintptr)              {}
+func (m *Map[K, V]) SetHasher(func(K) uintptr) {}
+func (m *Map[K, V]) Fillrate() uintptr         { return 50 }
